@@ -87,14 +87,15 @@ Definition verdict_code (v : verdict) : Z :=
   match v with Accept => 0 | VReject e => verr_code e | VCrash c => crash_code c end.
 
 (* data-unit literals as written by the harness: a flat tuple
-   (kind tag, a, b, c, d, e, f) , len, npo, ppo
+   UL tag a b c d e f len npo ppo      (a constructor: elaborates ~8x faster than a 10-tuple)
      tag 0 SeqHdr  (id, major, profile, level, pcm, pvmin)
      tag 1 Pic     (hq, picnum, wi, wi_ho, depth_ho, sx*65536+sy)
      tag 2 FragFirst   -- same --
      tag 3 FragData (hq, picnum, count, x, y, 0)
      tag 4 Pad, 5 Aux, 6 Eos *)
-Definition mk_unit (t : Z * Z * Z * Z * Z * Z * Z * Z * Z * Z) : dunit :=
-  let '(tag, a, b, c, d, e, f, len, npo, ppo) := t in
+Inductive ulit := UL (tag a b c d e f len npo ppo : Z).
+Definition mk_unit (t : ulit) : dunit :=
+  let '(UL tag a b c d e f len npo ppo) := t in
   let k :=
     if tag =? 0 then KSeqHdr (mkHdr a b c d e f)
     else if tag =? 1 then KPic (negb (a =? 0)) b (mkTp c d e (f / 65536) (f mod 65536))
@@ -112,12 +113,12 @@ Definition bool_code (b : bool) : Z := if b then 1 else 0.
 
 (* a case: (units, observed verdict code).  agree = the model's verdict has that code *)
 Definition agree (gen : table) (lvls : list (Z * table)) (pinned : bool)
-           (c : list (Z * Z * Z * Z * Z * Z * Z * Z * Z * Z) * Z) : bool :=
+           (c : list ulit * Z) : bool :=
   verdict_code (run_t gen lvls pinned (map mk_unit (fst c))) =? snd c.
 
 (* C10: (units, (verdict code, failing/last sequence index, pictures)) *)
 Definition agree_obs (gen : table) (lvls : list (Z * table)) (pinned : bool)
-           (c : list (Z * Z * Z * Z * Z * Z * Z * Z * Z * Z) * (Z * Z * list Z)) : bool :=
+           (c : list ulit * (Z * Z * list Z)) : bool :=
   let '(v, i, p) := run_obs_t gen lvls pinned (map mk_unit (fst c)) in
   let '(v', i', p') := snd c in
   (verdict_code v =? v') && (i =? i') && zlist_eqb p p'.
@@ -125,7 +126,7 @@ Definition agree_obs (gen : table) (lvls : list (Z * table)) (pinned : bool)
 (* oracle cross-check: the Coq rule checkers and the harness' Python re-implementation agree on
    each of the ten rules (given units_valid), and accept <-> all rules *)
 Definition rules_agree (gen : table) (lvls : list (Z * table))
-           (c : list (Z * Z * Z * Z * Z * Z * Z * Z * Z * Z) * list Z) : bool :=
+           (c : list ulit * list Z) : bool :=
   zlist_eqb (map bool_code (rules_vector gen lvls (map mk_unit (fst c)))) (snd c).
 
 (* vc2_data_tables.PROFILES: (profile, list of allowed parse codes) dumped live *)
